@@ -65,7 +65,7 @@ theorem goodC_deliver_cur {M : Nat} (hM : 1 ≤ M) {s s' : Sys} {olds : List Nat
         rw [a5]
         have hcl : (s.wk c).bp.closing = false := by
           rw [needsRetry_iff] at hn; cases hcc : (s.wk c).bp.closing <;> simp_all
-        obtain ⟨v', r1, r2, r4⟩ := cur_fail_core h c hc hn hnp _ hpinv a4
+        obtain ⟨v', r1, r2, r4⟩ := cur_fail_core h c hc hn (fun e => absurd e hnp) _ hpinv a4
           (Or.inr ⟨by rw [a1]; exact hcl, a2, by rw [hins]; simp⟩) s.succ (s.errs ++ errOut M (insW s c))
         have hl := logC_deliver_same (M := M) h.log r4 c (BrokerProd.step M (s.wk c).bp
           (.resp (Pipeline.Verdict.retriable a).toResp still)).1 (insW s c) (s.errs ++ errOut M (insW s c))
@@ -76,7 +76,7 @@ theorem goodC_deliver_cur {M : Nat} (hM : 1 ≤ M) {s s' : Sys} {olds : List Nat
     | conn a =>
       obtain ⟨a1, a2, a3, a4, a5⟩ := resp_conn_spec M (s.wk c).bp sent a still hsets hP hN
       rw [a5]
-      obtain ⟨v', r1, r2, r4⟩ := cur_fail_core h c hc hn hnp _ hpinv a4 (Or.inl a1) s.succ
+      obtain ⟨v', r1, r2, r4⟩ := cur_fail_core h c hc hn (fun e => absurd e hnp) _ hpinv a4 (Or.inl a1) s.succ
         (s.errs ++ errOut M (insW s c))
       have hl := logC_deliver_same (M := M) h.log r4 c (BrokerProd.step M (s.wk c).bp
         (.resp (Pipeline.Verdict.conn a).toResp still)).1 (insW s c) (s.errs ++ errOut M (insW s c))
